@@ -216,6 +216,21 @@ func grpcOutcome(code codes.Code, hint time.Duration) outcome {
 	return o
 }
 
+// grpcZeroRetryInfo: ResourceExhausted (or any code) carrying a RetryInfo detail whose delay is zero or
+// unset. It does carry retry info, so ResourceExhausted is retryable; there is just nothing to wait for.
+func grpcZeroRetryInfo(code codes.Code, unset bool) outcome {
+	o := outcome{name: "gRPC " + code.String() + " RetryInfo 0s"}
+	ri := &errdetails.RetryInfo{RetryDelay: durationpb.New(0)}
+	if unset {
+		ri = &errdetails.RetryInfo{}
+		o.name = "gRPC " + code.String() + " RetryInfo without a delay"
+	}
+	st, _ := status.New(code, "scripted failure").WithDetails(ri)
+	o.resp.GRPC = st
+	o.retryable = retryableGRPC[code] || code == codes.ResourceExhausted
+	return o
+}
+
 func partialOutcome(http bool, token string) outcome {
 	o := outcome{name: "success with partial-success message", success: true, partial: true}
 	o.resp.PartialMsg, o.resp.PartialN = "rejected-"+token, 3
@@ -544,6 +559,7 @@ func runRow(k *vf.Case, rw row) {
 			stopped = true
 			break
 		}
+		sumHints += o.resp.Delay // the collector held this attempt for that long: it is part of the elapsed time
 		if rw.rc.MaxElapsed != 0 {
 			if sumHints+o.hint > rw.rc.MaxElapsed {
 				stopped = true
@@ -797,6 +813,23 @@ func tableA() []row {
 				rows = append(rows, row{kind: kind, seq: []outcome{o, o, o, o, o}, rc: retryCfg{Enabled: true, MaxElapsed: h * 5 / 2}, table: "A"})
 			}
 			rows = append(rows, row{kind: kind, seq: []outcome{grpcOutcome(codes.Unavailable, 0)}, rc: retryCfg{Enabled: false}, table: "A"})
+			for _, unset := range []bool{false, true} {
+				z := grpcZeroRetryInfo(codes.ResourceExhausted, unset)
+				rows = append(rows, row{kind: kind, seq: []outcome{z}, rc: on, table: "A"})
+				rows = append(rows, row{kind: kind, seq: []outcome{z, z}, rc: on, table: "A"})
+				rows = append(rows, row{kind: kind, seq: []outcome{grpcZeroRetryInfo(codes.InvalidArgument, unset)}, rc: on, table: "A"})
+			}
+		}
+		// slow attempts count against the budget: every answer comes after 300 ms, the budget is 1 s, so the
+		// fourth failed attempt ends at >= 1.2 s and there is no fifth
+		{
+			slow := httpOutcome(503, 0)
+			if !isHTTP(kind) {
+				slow = grpcOutcome(codes.Unavailable, 0)
+			}
+			slow.resp.Delay = 300 * time.Millisecond
+			slow.name += " answered after 300ms"
+			rows = append(rows, row{kind: kind, seq: []outcome{slow, slow, slow, slow, slow, slow, slow, slow}, rc: retryCfg{Enabled: true, MaxElapsed: time.Second}, table: "A"})
 		}
 		// an exporter that has existed for longer than MaxElapsedTime: the budget is per export, so a retryable
 		// outcome followed by success must still be retried
